@@ -4,7 +4,7 @@
    Model: Model/BstParser.v (pybtex/bibtex/bst.py, pybtex/scanner.py); printer and the classes of
    programs / layouts the statements speak about: Spec/BstPrint.v. *)
 From Pybtex Require Import Base.Prelude Base.PyChar Base.PyStr Model.BstParser Spec.BstPrint
-  Proofs.BstComment Proofs.BstLex Proofs.BstRoundtrip Proofs.BstErrors Proofs.BstArity Proofs.BstSource.
+  Proofs.BstComment Proofs.BstLex Proofs.BstRoundtrip Proofs.BstErrors Proofs.BstArity Proofs.BstSource Proofs.BstTotal Proofs.BstLast.
 
 (* %-comments: strip_comment keeps exactly the part of the line before the first percent sign that
    has an even number of double quotes before it (a percent sign inside a string literal is not a
@@ -160,3 +160,23 @@ Print Assumptions arity_respected_refuted.
 Theorem arity_respected_partial : forall src p, parse_string src = Ok p -> Forall arity_at_most p.
 Proof. exact Proofs.BstArity.arity_respected_partial. Qed.
 Print Assumptions arity_respected_partial.
+
+(* ... and a short command is never the last one: the last command of an accepted program always
+   has exactly its arity (at the end of the text the code does raise PrematureEOF).  So F21 is
+   confined to "fewer groups than the arity, directly followed by another command". *)
+Theorem last_command_complete : forall src p pre c,
+  parse_string src = Ok p -> p = pre ++ [c] -> arity_exact c.
+Proof. exact Proofs.BstLast.last_command_complete. Qed.
+Print Assumptions last_command_complete.
+
+Example last_command_examples :
+  parse_string (s2l "READ ENTRY {a}{b}") = PyErr cls_premature 1 /\
+  parse_string (s2l "ENTRY {a}{b} READ") = Ok [(s2l "ENTRY", [[TId (s2l "a")]; [TId (s2l "b")]]); (s2l "READ", [])].
+Proof. vm_compute. auto. Qed.
+
+(* the fuel the model gives itself always suffices: for every source the result is Ok, a pybtex
+   syntax error, or Crash -- never OutOfFuel (so the statements above about Ok / PyErr results
+   do not silently exclude anything) *)
+Theorem parse_string_fuel : forall src, parse_string src <> OutOfFuel.
+Proof. exact Proofs.BstTotal.parse_string_fuel. Qed.
+Print Assumptions parse_string_fuel.
